@@ -20,12 +20,14 @@ pub enum Theme {
     SuffixTraps,
     NonAscii,
     Recurring,
+    PrefixedNonAscii,
+    RandomNames,
     Mixed,
 }
 
-pub const THEMES: [Theme; 11] = [
+pub const THEMES: [Theme; 13] = [
     Theme::Plain, Theme::Keywords, Theme::CaseVariants, Theme::Separators, Theme::Prefixed, Theme::Concat, Theme::Prelude, Theme::SuffixTraps,
-    Theme::NonAscii, Theme::Recurring, Theme::Mixed,
+    Theme::NonAscii, Theme::Recurring, Theme::PrefixedNonAscii, Theme::RandomNames, Theme::Mixed,
 ];
 
 /// themes whose names never differ only by namespace prefix and never carry a prefix (C01/C09/C13 scope by construction)
@@ -61,10 +63,40 @@ pub fn pool(theme: Theme, rng: &mut Rng) -> Vec<String> {
         Theme::SuffixTraps => vec!["foo", "foo_1", "foo_2", "Foo", "foo_attr", "foo_attr_1", "text", "Text", "text_content", "text_1", "text_content_1", "x1", "X1", "x"],
         Theme::NonAscii => vec!["Ид", "ид", "ИД", "Классификатор", "é", "É", "straße", "Ünï", "中", "中丁", "a中", "naïve", "x"],
         Theme::Recurring => vec!["a", "A", "b", "a_a", "aa", "Aa"],
+        // multi-byte characters around ':' and at small byte offsets (string slicing by byte index)
+        Theme::PrefixedNonAscii => vec!["é:é", "a:bcdé", "ab:cdé", "abc:dé", "abcd:é", "abcde:é", "xmlns:é", "xmln:é", "é:xmlns", "中:丁x", "a:中", "ab:中丁", "É:a", "ß:ß", "ns:Ид", "Ид:ns", "x"],
+        Theme::RandomNames => {
+            let alphabet = ['a', 'b', 'B', 'Z', 'é', 'É', 'ß', '中', 'Й', 'й', '1', '9', '-', '_', '.', ':'];
+            let mut v: Vec<String> = Vec::new();
+            while v.len() < 9 {
+                let len = rng.range(1, 7);
+                let mut s = String::new();
+                let mut colon = false;
+                for i in 0..len {
+                    let c = *rng.pick(&alphabet);
+                    if i == 0 && !c.is_alphabetic() {
+                        s.push('a');
+                        continue;
+                    }
+                    if c == ':' {
+                        if colon || i + 1 == len {
+                            continue;
+                        }
+                        colon = true;
+                    }
+                    s.push(c);
+                }
+                if !s.ends_with(':') {
+                    v.push(s);
+                }
+            }
+            v.push("x".into());
+            return v;
+        }
         Theme::Mixed => {
             let mut v: Vec<String> = Vec::new();
             for _ in 0..10 {
-                let t = *rng.pick(&THEMES[..10]);
+                let t = *rng.pick(&THEMES[..12]);
                 let p = pool(t, rng);
                 v.push(rng.pick(&p).clone());
             }
